@@ -98,7 +98,8 @@ def oracle(run: runner.Run, oc: Outcome) -> None:
                     and not st.records(first_view)
                 t_last = oper.t_killed or (oper.exit[0] if oper.exit else None) or oper.t_stop_requested or run.sim.now
                 lived = t_last - first.t0
-                gone = any(s.etype == 'DELETED' or (s.reason in ('delete', 'free')) for s in ss)
+                gone = any(s.etype == 'DELETED' or (s.reason in ('delete', 'free')) for s in ss) or \
+                    any(t.uid == uid and t.verb in ('delete', 'delete-mark') for t in run.transitions)
                 if eligible and not finals and lived > 40.0 and not gone and not run.step_capped:
                     oc.add('C14/missed', 'eligible-not-resumed',
                            f"{uid} existed at the start of process {actor}, had been handled before and was not being "
